@@ -132,6 +132,7 @@ class CoqBatch:
         self.meta = {}       # check id -> (case payload, tag)
 
     def add(self, defs, checks, payload):
+        common.note_case('coq', self.name, defs, [e for _, e in checks])
         out = []
         for tag, expr in checks:
             i = self.next_id
